@@ -82,6 +82,9 @@ pub struct Path {
     /// fork off afterwards
     pub soft_errors:    Vec<(ErrKind, usize, usize)>,
     pub gas:            u64,
+    /// offset of the successfully executed instruction after which the cumulative minimum gas
+    /// exceeded the limit (the path ends there)
+    pub gas_error_at:   Option<usize>,
     /// JUMPI offsets at which this path was created by taking the branch
     pub taken_at:       Vec<usize>,
     pub forks:          usize,
@@ -112,6 +115,9 @@ struct Thread {
     path: Path,
     visits: BTreeMap<usize, usize>,
     mem_unknown_default: bool,
+    /// the next instruction is the JUMPDEST an unconditional JUMP landed on: the subject steps past
+    /// it without executing (or charging) it
+    landed: bool,
 }
 
 fn alu2(op: u8, a: Val, b: Val) -> Val {
@@ -159,11 +165,13 @@ pub fn run(code: &[u8], cfg: &RefCfg) -> RefRun {
             end_offset: 0,
             soft_errors: vec![],
             gas: 0,
+            gas_error_at: None,
             taken_at: vec![],
             forks: 0,
         },
         visits: BTreeMap::new(),
         mem_unknown_default: false,
+        landed: false,
     }];
     let mut complete = true;
     let mut steps = 0usize;
@@ -191,9 +199,12 @@ pub fn run(code: &[u8], cfg: &RefCfg) -> RefRun {
             }
             *v += 1;
             let op = code[pc];
+            let was_landed = std::mem::replace(&mut t.landed, false);
             t.path.executed.push(pc);
             t.path.end_offset = pc;
             if !assigned(op) || op == 0xfe {
+                // INVALID and unassigned bytes complete (at no cost) and end the path
+                t.path.end = End::Invalid;
                 break End::Invalid;
             }
             let (pops, pushes) = stack_io(op);
@@ -205,8 +216,10 @@ pub fn run(code: &[u8], cfg: &RefCfg) -> RefRun {
             }
             let mut next = pc + 1 + push_len(op);
             let st = &mut t.path.stack;
+            // instructions that complete and end the path are still charged their minimum gas
+            let mut halt: Option<End> = None;
             match op {
-                0x00 => break End::Stop,
+                0x00 => halt = Some(End::Stop),
                 0x01..=0x07 | 0x0a | 0x0b | 0x10..=0x14 | 0x16..=0x18 | 0x1a..=0x1d => {
                     let a = st.pop().unwrap();
                     let b = st.pop().unwrap();
@@ -359,11 +372,13 @@ pub fn run(code: &[u8], cfg: &RefCfg) -> RefRun {
                 0x56 => {
                     let target = st.pop().unwrap();
                     match target.w {
-                        None => break End::Error(ErrKind::JumpSymbolic),
+                        // the instruction completes (and is charged); the path cannot be followed
+                        None => halt = Some(End::Error(ErrKind::JumpSymbolic)),
                         Some(tw) => match tw.as_u64_checked() {
                             Some(tt) if (tt as usize) < code.len() && tt < u32::MAX as u64 => {
                                 if is_jumpdest(tt as usize) {
                                     t.path.landed_by_jump.push(tt as usize);
+                                    t.landed = true;
                                     next = tt as usize;
                                 } else {
                                     break End::Error(ErrKind::JumpNotJumpdest);
@@ -428,12 +443,12 @@ pub fn run(code: &[u8], cfg: &RefCfg) -> RefRun {
                 0xf3 | 0xfd => {
                     st.pop();
                     st.pop();
-                    break if op == 0xf3 { End::Return } else { End::Revert };
+                    halt = Some(if op == 0xf3 { End::Return } else { End::Revert });
                 }
                 0xff => {
                     st.pop();
                     if cfg.selfdestruct_halts {
-                        break End::SelfDestruct;
+                        halt = Some(End::SelfDestruct);
                     }
                 }
                 0xf1 | 0xf2 | 0xf4 | 0xfa => {
@@ -455,9 +470,19 @@ pub fn run(code: &[u8], cfg: &RefCfg) -> RefRun {
                     }
                 }
             }
-            t.path.gas += (cfg.gas_of)(pc);
-            if t.path.gas > cfg.gas_limit {
-                break End::OutOfGas;
+            if op == 0x5b && was_landed {
+                // not charged (see `landed`)
+            } else {
+                t.path.gas += (cfg.gas_of)(pc);
+            }
+            if t.path.gas > cfg.gas_limit && !(op == 0x5b && was_landed) {
+                // the subject locates the error at the instruction pointer after the instruction ran,
+                // which for a JUMP that was taken is the landing JUMPDEST
+                t.path.gas_error_at = Some(if op == 0x56 && halt.is_none() { next } else { pc });
+                break halt.unwrap_or(End::OutOfGas);
+            }
+            if let Some(h) = halt {
+                break h;
             }
             t.pc = next;
         };
